@@ -27,6 +27,7 @@ type HostileCase struct {
 	AnyPort      bool      `json:"anyport,omitempty"`
 	Medias       int       `json:"medias"`
 	Query        bool      `json:"query,omitempty"`
+	Tunnel       string    `json:"tunnel,omitempty"` // "", http (RTSP over HTTP), ws (RTSP over WebSocket); the protocol is TCP then
 	Rules        []SrvRule `json:"rules"`
 	Program      []CliOp   `json:"program"`
 }
@@ -91,6 +92,14 @@ func runHostile(c HostileCase) (*hostileStats, error) {
 		cl.Protocol = protoPtr(gortsplib.ProtocolTCP)
 	case "mcast":
 		cl.Protocol = protoPtr(gortsplib.ProtocolUDPMulticast)
+	}
+	switch c.Tunnel {
+	case "http":
+		cl.Tunnel = gortsplib.TunnelHTTP
+		cl.Protocol = protoPtr(gortsplib.ProtocolTCP)
+	case "ws":
+		cl.Tunnel = gortsplib.TunnelWebSocket
+		cl.Protocol = protoPtr(gortsplib.ProtocolTCP)
 	}
 	us := scheme + "://"
 	if c.Creds {
